@@ -682,6 +682,11 @@ class ExprMixin(object):
         pb = self.to_poly(st, b, node, module)
         if "mixed" == T.kind_join(pa.kind, pb.kind) and not isinstance(op, ast.Pow):
             self.event("dec_float_mix", node, module, st)
+        for p_ in (pa, pb):
+            if any(isinstance(x, App) and x.op == "float" for x in p_.atoms()):
+                # binary floating-point arithmetic on an already rounded score: rational
+                # normalisation would hide the noise it introduces
+                self.event("arith_after_float", node, module, st)
         if isinstance(op, ast.Add):
             return T.p_add(pa, pb)
         if isinstance(op, ast.Sub):
